@@ -349,6 +349,11 @@ def use_lemmas(eng, c, fr):
 def prove_lemmas(eng, c, fr):
     """induction scheme supplied explicitly: P(base) and (k >= base and P(k)) => P(k+1), over the unit's symbolic inputs"""
     for lem in c.extra.get('lemmas', []):
+        if 'var' not in lem:
+            # a spec-level fact over the unit's symbolic inputs (no induction): proved once, as stated
+            eng.prove('lemma.%s' % lem['name'].split('[')[0], eng.pure_bool(lem['stmt'], fr), kind='lemma',
+                      props=c.clause_props(lem['name']), assume_after=False)
+            continue
         var, base = lem['var'], lem.get('base', '0')
         f = Frame(fr.func, fr)
         f.vars[var] = eng.pure_expr(base, fr)
